@@ -45,15 +45,22 @@ structure E2 (s : State) : Prop where
   af : s.activeFormatting = []
   form : s.formElem = none
   fp : s.fosterParenting = false
+  adj : AdjD s.dom []
 
 class KE {α : Type} (prog : M α) : Prop where
   p : ∀ s a s', prog s = .ok (a, s') →
     s'.activeFormatting = s.activeFormatting ∧ s'.formElem = s.formElem ∧ s'.fosterParenting = s.fosterParenting
 
-theorem E2.ke {α : Type} {prog : M α} [h : KE prog] {s s' : State} {a : α} (h2 : E2 s) (e : prog s = .ok (a, s')) :
-    E2 s' := by
+theorem E2.ke {α : Type} {prog : M α} [h : KE prog] [ka : KA prog] {s s' : State} {a : α} (h2 : E2 s)
+    (hb : DomBase s.dom) (hd : s.docHandle = 0) (e : prog s = .ok (a, s')) : E2 s' := by
   obtain ⟨h3, h4, h5⟩ := h.p s a s' e
-  exact ⟨h3.trans h2.af, h4.trans h2.form, h5.trans h2.fp⟩
+  exact ⟨h3.trans h2.af, h4.trans h2.form, h5.trans h2.fp, (ka.p s a s' hb hd h2.adj e).2.2⟩
+
+/-- for a program that does not touch the arena's nodes -/
+theorem E2.keq {α : Type} {prog : M α} [h : KE prog] {s s' : State} {a : α} (h2 : E2 s)
+    (e : prog s = .ok (a, s')) (hn : s'.dom.nodes = s.dom.nodes) : E2 s' := by
+  obtain ⟨h3, h4, h5⟩ := h.p s a s' e
+  exact ⟨h3.trans h2.af, h4.trans h2.form, h5.trans h2.fp, h2.adj.of_nodes hn⟩
 
 instance {α : Type} (a : α) : KE (pure a : M α) := ⟨fun s b s' e => by obtain ⟨_, rfl⟩ := pure_ok.mp e; exact ⟨rfl, rfl, rfl⟩⟩
 instance {α β : Type} (m : M α) (f : α → M β) [h1 : KE m] [h2 : ∀ a, KE (f a)] : KE (m >>= f) :=
@@ -105,7 +112,8 @@ theorem createRoot_good {s s' : State} {attrs : List Attr} {u : Unit} (h : Early
     (hp : docPre 0 (kinds s.dom) = true) (e : createRoot attrs s = .ok (u, s')) :
     ∃ r, Good r { s' with mode := .beforeHead } := by
   have hl := createRoot_early h hp e .beforeHead rfl
-  have h2' : E2 s' := h2.ke e
+  have h2' : E2 s' := h2.ke h.base h.doc e
+  have hadj0 : AdjD s'.dom s'.openElems := (createRoot_adj h.base h.doc h2.adj e).2.2.2 h.oe
   unfold createRoot at e
   obtain ⟨el, s1, e1, e2⟩ := bind_ok.mp e
   obtain ⟨f1, hb1, hc1, hk1, hfresh, hvalid, tc, ip, hdata⟩ := createElementWithFlags_any h.base e1
@@ -141,7 +149,7 @@ theorem createRoot_good {s s' : State} {attrs : List Attr} {u : Unit} (h : Early
     rw [f3.head, hs2]; show s1.headElem = none; rw [f1.head]; exact h.head
   have htm : s'.templateModes = [] := by
     rw [f3.tm, hs2]; show s1.templateModes = []; rw [f1.tm]; exact h.tm
-  refine ⟨el, [], .p0, ⟨⟨hl, hoe, ?_, ?_, ?_, ?_, ?_, ?_, ?_, ?_, ?_, ?_, ?_, ?_, ?_⟩, ?_⟩, ?_⟩
+  refine ⟨el, [], .p0, ⟨⟨hl, hoe, ?_, ?_, ?_, ?_, ?_, ?_, ?_, ?_, ?_, ?_, ?_, ?_, ?_, hadj0⟩, ?_⟩, ?_⟩
   · show el ∈ s'.dom.childrenOf 0
     rw [hk3]; simp
   · show s'.openElems.Nodup
@@ -191,7 +199,7 @@ theorem stepBeforeHtml_good {s s' : State} {tok : Token} {res : ProcessResult} (
     (e : stepBeforeHtml tok s = .ok (res, s')) :
     (EarlyB s' ∧ E2 s' ∧ EarlyRes tok res) ∨ ((∃ r, Good r s') ∧ res = .done) ∨
       ((∃ r, Good r { s' with mode := .beforeHead }) ∧ res = .reprocess .beforeHead tok) := by
-  have h2' : E2 s' := h2.ke e
+  have h2' : E2 s' := h2.ke h.1.base h.1.doc e
   have anyElse : ∀ (t : Token) (s0 : State), EarlyB s0 → E2 s0 →
       (do createRoot []; pure (ProcessResult.reprocess Mode.beforeHead t) : M ProcessResult) s0 = .ok (res, s') →
       (∃ r, Good r { s' with mode := .beforeHead }) ∧ res = .reprocess .beforeHead t := by
@@ -314,7 +322,7 @@ theorem stepPart_good (R : Rules) {s s1 : State} {tok : Token} {result : Process
     obtain ⟨rfl, rfl⟩ := isForeign_early ha.1.oe e1
     simp only [Bool.false_eq_true, if_false] at e2
     rw [getS_bind, ha.2.1] at e2
-    have h2' : E2 s1 := h2a.ke (prog := stepInitial tok) e2
+    have h2' : E2 s1 := h2a.ke (prog := stepInitial tok) ha.1.base ha.1.doc e2
     rcases stepInitial_spec ha e2 with ⟨h1, h3⟩ | ⟨h1, h3⟩
     · exact .earlyA ha.notLate h1 h3 h2'
     · exact .aToB ha.notLate h1 h3 h2'
@@ -327,7 +335,7 @@ theorem stepPart_good (R : Rules) {s s1 : State} {tok : Token} {result : Process
     rw [getS_bind, hb.2.1] at e2
     have hgood := stepBeforeHtml_good hb h2b e2
     rcases stepBeforeHtml_spec hb e2 with ⟨h1, h3⟩ | ⟨h1, h3⟩ | ⟨h1, h3⟩
-    · exact .earlyB hb.notLate h1 h3 (h2b.ke (prog := stepBeforeHtml tok) e2)
+    · exact .earlyB hb.notLate h1 h3 (h2b.ke (prog := stepBeforeHtml tok) hb.1.base hb.1.doc e2)
     · rcases hgood with ⟨g1, _, _⟩ | ⟨⟨r, g1⟩, _⟩ | ⟨_, g2⟩
       · exact absurd h1 g1.notLate
       · refine .late r h1 (by rw [h3]; trivial) (by rw [h3]; exact g1) (Or.inr ?_)
@@ -404,8 +412,8 @@ theorem I2.ofEarly {s : State} (hn : ¬ Late s) (h : E2 s) : I2 s := ⟨fun _ =>
 def P2 (tok : Token) (more : List Token) (s' : State) : Prop := I2 s' ∧ (tok = .eof → more = [] → Fin s')
 
 theorem E2.same {s s' : State} (h : E2 s) (h1 : s'.activeFormatting = s.activeFormatting)
-    (h2 : s'.formElem = s.formElem) (h3 : s'.fosterParenting = s.fosterParenting) : E2 s' :=
-  ⟨h1.trans h.af, h2.trans h.form, h3.trans h.fp⟩
+    (h2 : s'.formElem = s.formElem) (h3 : s'.fosterParenting = s.fosterParenting) (h4 : s'.dom = s.dom) : E2 s' :=
+  ⟨h1.trans h.af, h2.trans h.form, h3.trans h.fp, by rw [h4]; exact h.adj⟩
 
 set_option maxHeartbeats 1600000 in
 theorem ptc_good (R : Rules) : ∀ (fuel : Nat) (tok : Token) (more : List Token) (s : State) (r : SinkResult) (s' : State),
@@ -576,7 +584,7 @@ theorem ptc_good (R : Rules) : ∀ (fuel : Nat) (tok : Token) (more : List Token
         rcases ite_run e with ⟨_, e⟩ | ⟨_, e⟩
         · obtain ⟨u, s2, e3, e4⟩ := bind_ok.mp e
           have ha2 := ha.same (same3_parseError e3)
-          have h22 : E2 s2 := h2'.ke e3
+          have h22 : E2 s2 := h2'.keq e3 (same3_parseError e3).nodes
           cases more with
           | nil => exact hcont s2 _ (.a ha2) (I2.ofEarly ha2.notLate h22) (fun he => absurd he hne) (Or.inl ⟨rfl, rfl⟩) e4
           | cons t rest => exact hcont s2 _ (.a ha2) (I2.ofEarly ha2.notLate h22) (fun he => absurd he hne) (Or.inr ⟨t, rest, rfl, rfl⟩) e4
@@ -602,7 +610,7 @@ theorem ptc_good (R : Rules) : ∀ (fuel : Nat) (tok : Token) (more : List Token
         rcases ite_run e with ⟨_, e⟩ | ⟨_, e⟩
         · obtain ⟨u, s2, e3, e4⟩ := bind_ok.mp e
           have hb2 := hb.same (same3_parseError e3)
-          have h22 : E2 s2 := h2'.ke e3
+          have h22 : E2 s2 := h2'.keq e3 (same3_parseError e3).nodes
           cases more with
           | nil => exact hcont s2 _ (.b hb2) (I2.ofEarly hb2.notLate h22) (fun he => absurd he hne) (Or.inl ⟨rfl, rfl⟩) e4
           | cons t rest => exact hcont s2 _ (.b hb2) (I2.ofEarly hb2.notLate h22) (fun he => absurd he hne) (Or.inr ⟨t, rest, rfl, rfl⟩) e4
@@ -628,7 +636,7 @@ theorem ptc_good (R : Rules) : ∀ (fuel : Nat) (tok : Token) (more : List Token
       unfold setMode at e3
       rw [modS_ok.mp e3] at e4
       have hb2 := ha.toB
-      exact ih tok more _ r s' (.b hb2) (I2.ofEarly hb2.notLate ⟨h2'.af, h2'.form, h2'.fp⟩) htok hmore e4
+      exact ih tok more _ r s' (.b hb2) (I2.ofEarly hb2.notLate ⟨h2'.af, h2'.form, h2'.fp, h2'.adj⟩) htok hmore e4
     | bToLate r0 hnl hl1 hres hg =>
       subst hres
       simp only at e
@@ -652,7 +660,8 @@ theorem Good.free {r : Id} {s s' : State} (h : Good r s)
   refine ⟨up, ph, ⟨⟨hl, by rw [h2]; exact hc.stack, by rw [h1]; exact hc.rdoc, by rw [h2]; exact hc.nodup,
     by rw [h1, h2]; exact hc.tg, by rw [h1, h10]; exact hc.afn, by rw [h1, h2, h9]; exact hc.tc, by rw [h9]; exact hc.tmm,
     by rw [h1, h11]; exact hc.form, by rw [h1]; exact hc.rtu, by rw [h1]; exact hc.rnd, by rw [h1]; exact hc.kids,
-    by rw [h1, h3]; exact hc.elems, by rw [h1]; exact hc.bh, by rw [h1, h10]; exact hc.afx⟩, ?_⟩, ?_⟩
+    by rw [h1, h3]; exact hc.elems, by rw [h1]; exact hc.bh, by rw [h1, h10]; exact hc.afx,
+    by rw [h1, h2]; exact hc.adj⟩, ?_⟩, ?_⟩
   · unfold FitsM at hf ⊢
     rw [h7, h8, h1, h3]; exact hf
   · intro hpf hfl
@@ -703,7 +712,7 @@ theorem processToken_good (R : Rules) {s s' : State} {t : TokToken} {line : Nat}
   have hi1 : I2 s1 := by
     rcases hs1 with rfl | ⟨u, hu⟩
     · exact hi
-    · exact i2_same h hi q1 (fun r g => g.qs (qs_sinkUnit hu)) (fun h2 => h2.ke hu)
+    · exact i2_same h hi q1 (fun r g => g.qs (qs_sinkUnit hu)) (fun h2 => h2.keq hu q1.nodes)
   have h1 : Inv3 s1 := h.same q1
   simp only at e1
   rw [getS_bind] at e1
@@ -713,7 +722,7 @@ theorem processToken_good (R : Rules) {s s' : State} {t : TokToken} {line : Nat}
   have h2 : Inv3 s2 := h1.same q12
   have hi2 : I2 s2 := i2_same h1 hi1 q12
     (fun r g => by rw [hs2]; exact g.free rfl rfl rfl rfl rfl rfl rfl rfl rfl rfl rfl rfl)
-    (fun h2 => by rw [hs2]; exact ⟨h2.af, h2.form, h2.fp⟩)
+    (fun h2 => by rw [hs2]; exact ⟨h2.af, h2.form, h2.fp, h2.adj⟩)
   -- a token handed to `process_to_completion`
   have run : ∀ (tk : Token), TokW tk →
       (do let __do_lift ← getS; processToCompletion (ptcFuel __do_lift tk) tk [] : M SinkResult) s2 = .ok (r, s') →
@@ -731,12 +740,12 @@ theorem processToken_good (R : Rules) {s s' : State} {t : TokToken} {line : Nat}
     obtain ⟨rfl, rfl⟩ := pure_ok.mp e8
     have q3 := same3_sinkUnit e4
     have h3 : Inv3 s3 := h2.same q3
-    have hi3 : I2 s3 := i2_same h2 hi2 q3 (fun r g => g.qs (qs_sinkUnit e4)) (fun h2 => h2.ke e4)
+    have hi3 : I2 s3 := i2_same h2 hi2 q3 (fun r g => g.qs (qs_sinkUnit e4)) (fun h2 => h2.keq e4 q3.nodes)
     have hs4 := modS_ok.mp e6
     have q34 : Same3 s3 s4 := same3_modS ⟨rfl, rfl, rfl, rfl, rfl, rfl, rfl, rfl, rfl⟩ e6
     have hi4 : I2 s4 := i2_same h3 hi3 q34
       (fun r g => by rw [hs4]; exact g.free rfl rfl rfl rfl rfl rfl rfl rfl rfl rfl rfl rfl)
-      (fun h2 => by rw [hs4]; exact ⟨h2.af, h2.form, h2.fp⟩)
+      (fun h2 => by rw [hs4]; exact ⟨h2.af, h2.form, h2.fp, h2.adj⟩)
     simp only at e9
     obtain ⟨_, rfl⟩ := pure_ok.mp e9
     exact ⟨hi4, fun h => by cases h⟩
@@ -762,23 +771,26 @@ theorem processToken_good (R : Rules) {s s' : State} {t : TokToken} {line : Nat}
         | mk err quirk =>
           simp only [hdq] at e3
           obtain ⟨s3, hs3, e4⟩ := ite_prefix_run e3
-          have he3 : E2 s3 := by
+          have he3 : E2 s3 ∧ EarlyA s3 := by
             rcases hs3 with rfl | ⟨u, hu⟩
-            · exact he2
-            · exact he2.ke hu
+            · exact ⟨he2, ha⟩
+            · exact ⟨he2.keq hu (same3_parseError hu).nodes, ha.same (same3_parseError hu)⟩
           rw [getS_bind] at e4
           obtain ⟨s4, hs4', e5⟩ := ite_prefix_run e4
           have he4 : E2 s4 := by
             rcases hs4' with rfl | ⟨u, hu⟩
-            · exact he3
-            · exact he3.ke hu
+            · exact he3.1
+            · exact he3.1.ke he3.2.1.base he3.2.1.doc hu
           obtain ⟨u5, s5, e6, e7⟩ := bind_ok.mp e5
           obtain ⟨u6, s6, e8, e9⟩ := bind_ok.mp e7
           obtain ⟨tb, s7, e10, e11⟩ := bind_ok.mp e9
           obtain ⟨rfl, rfl⟩ := pure_ok.mp e10
           simp only at e11
           obtain ⟨_, rfl⟩ := pure_ok.mp e11
-          exact (he4.ke e6).ke e8
+          have q5 := setQuirksMode_run e6
+          refine (he4.keq e6 q5.nodes).keq e8 ?_
+          unfold setMode at e8
+          rw [modS_ok.mp e8]
       have hnl : ¬ Late s' := by
         intro hl
         -- the mode is BeforeHtml
@@ -816,7 +828,7 @@ theorem processToken_good (R : Rules) {s s' : State} {t : TokToken} {line : Nat}
         have q3 := same3_parseError e4
         simp only at e9
         obtain ⟨_, rfl⟩ := pure_ok.mp e9
-        exact ⟨i2_same h3 hi3 q3 (fun r g => g.qs (qs_parseError e4)) (fun h2 => h2.ke e4), fun h => by cases h⟩
+        exact ⟨i2_same h3 hi3 q3 (fun r g => g.qs (qs_parseError e4)) (fun h2 => h2.keq e4 q3.nodes), fun h => by cases h⟩
       rw [getS_bind] at e3
       rcases ite_run e3 with ⟨hmt, e3⟩ | ⟨_, e3⟩
       · -- in table text: the pending text is flushed as by the "anything else" arm of that mode
